@@ -3,6 +3,7 @@
   session of Model/KeyIndex.lean), flush / commit / rollback and a second writer (property C14).
 
   Mirrors pony/orm/core.py:
+    Entity.flush (per-object flush: `_save_` of one object)                                            -> flushOne
     SessionCache.flush (queue order, `assert not cache.saved_objects`, nothing reset when a statement fails) -> flush / flushGo
     Entity._save_created_ (INSERT; IntegrityError -> TransactionIntegrityError; auto id; `setdefault(new_id, obj)`)
     Entity._save_updated_ (UPDATE of the written columns; rowcount 0 -> OptimisticCheckError), _save_deleted_ -> flushObj
@@ -153,6 +154,14 @@ def flush (sch : Schema) (w : World) (ids : List Int) : World × Option WErr :=
     | (w', some e, saved) => ({ w' with pendingSaved := saved }, some e)
     | (w', none, _) => ({ w' with modified := false }, none)
 
+/-- `obj.flush()` (`Entity.flush`): one queued object is saved on its own — no other pending object is written,
+    `cache.modified` stays set; the statement opens the transaction (`start_transaction=True` -> BEGIN IMMEDIATE) -/
+def flushOne (sch : Schema) (w : World) (o : ObjId) (ids : List Int) : World × Option WErr :=
+  if o ≥ w.sess.n then (w, some .badOp)
+  else if !((w.sess.obj o).status = .created || (w.sess.obj o).status = .modified || (w.sess.obj o).status = .markedToDelete) then (w, none)
+  else if w.pendingSaved then (w, some .assertion)                 -- `assert not cache.saved_objects`
+  else ((flushObj sch w o ids).w, (flushObj sch w o ids).err)
+
 /-- `rollback()`: the transaction is rolled back and the cache closed; the next call starts with an empty session -/
 def rollback (w : World) : World :=
   { committed := w.committed, txn := w.committed, inTxn := false, immediate := false, sess := Sess.empty, pendingSaved := false,
@@ -192,6 +201,7 @@ inductive WOp
   | sess (op : Op)             -- create / setAttrs / delete / read (the engine sends only these)
   | fetch (cls : Nat) (pk : KeyVal) (ids : List Int)
   | flush (ids : List Int)
+  | flushOne (o : ObjId) (ids : List Int)
   | commit (ids : List Int)
   | rollback
   | ext (r : DbRow)
@@ -217,6 +227,7 @@ def stepW (sch : Schema) (w : World) : WOp → World × Option WErr
       else (w, some .badOp)
   | .fetch c pk ids => fetch sch w c pk ids
   | .flush ids => flush sch w ids
+  | .flushOne o ids => flushOne sch w o ids
   | .commit ids => commit sch w ids
   | .rollback => (rollback w, none)
   | .ext r => ext sch w r
